@@ -248,14 +248,21 @@ func (s *Server) DidClose(ctx context.Context, params *protocol.DidCloseTextDocu
 // recorded include tree contains the file: its content on disk changed (saved)
 // or its editor text no longer counts (closed), so the recorded trees are stale.
 func (s *Server) reanalyseIncluders(ctx context.Context, path string, except protocol.DocumentURI) {
-	s.resolved.Range(func(key, value any) bool {
+	s.documents.Range(func(key, _ any) bool {
 		docURI, ok := key.(protocol.DocumentURI)
-		resolved, isTree := value.(*include.ResolvedJournal)
-		if !ok || !isTree || resolved == nil || docURI == except {
+		if !ok || docURI == except {
 			return true
 		}
-		if _, included := resolved.Files[path]; !included {
-			return true
+		// a document without a recorded tree is being analysed right now: that
+		// analysis may already have read the file, so it is started again as well
+		if value, recorded := s.resolved.Load(docURI); recorded {
+			resolved, isTree := value.(*include.ResolvedJournal)
+			if !isTree || resolved == nil {
+				return true
+			}
+			if _, included := resolved.Files[path]; !included {
+				return true
+			}
 		}
 		s.docMu.Lock()
 		content, open := s.GetDocument(docURI)
